@@ -7,6 +7,7 @@ use crate::{
         Line,
     },
 };
+use az::SaturatingAs;
 
 /// Intersection test result.
 #[derive(Copy, Clone, Debug, PartialEq)]
@@ -100,21 +101,27 @@ impl<'a> IntersectionParams<'a> {
         // If we got here, line segments intersect. Compute intersection point using method similar
         // to that described here: http://paulbourke.net/geometry/pointlineplane/#i2l
 
+        // The numerators are the products of an origin distance and a normal vector component,
+        // which don't fit into an `i32` for longer lines. The calculation is done using `i64`s to
+        // prevent overflows.
+        let denominator = i64::from(denominator);
+
         // The denominator/2 is to get rounding instead of truncating.
         let offset = denominator.abs() / 2;
 
-        let origin_distances = Point::new(line1.origin_distance, line2.origin_distance);
+        let origin_distance1 = i64::from(line1.origin_distance);
+        let origin_distance2 = i64::from(line2.origin_distance);
 
-        let numerator =
-            origin_distances.determinant(Point::new(line1.normal_vector.y, line2.normal_vector.y));
+        let numerator = origin_distance1 * i64::from(line2.normal_vector.y)
+            - origin_distance2 * i64::from(line1.normal_vector.y);
         let x_numerator = if numerator < 0 {
             numerator - offset
         } else {
             numerator + offset
         };
 
-        let numerator =
-            Point::new(line1.normal_vector.x, line2.normal_vector.x).determinant(origin_distances);
+        let numerator = i64::from(line1.normal_vector.x) * origin_distance2
+            - i64::from(line2.normal_vector.x) * origin_distance1;
         let y_numerator = if numerator < 0 {
             numerator - offset
         } else {
@@ -122,7 +129,10 @@ impl<'a> IntersectionParams<'a> {
         };
 
         Intersection::Point {
-            point: Point::new(x_numerator, y_numerator) / denominator,
+            point: Point::new(
+                (x_numerator / denominator).saturating_as(),
+                (y_numerator / denominator).saturating_as(),
+            ),
             outer_side,
         }
     }
